@@ -268,22 +268,31 @@ func c14Uses() []c14Use {
 			return hex.EncodeToString(e.Bytes())
 		},
 			func(d *hio.Decoder) interface{} {
-				return decodeInto(d, []byte("a3{l5;d1.5;m1{ua1}}"), false, func(d *hio.Decoder) {
+				return decodeInto(d, []byte("a5{l5;d1.5;m1{ua1}c5\"Plain\"3{uaubuc}o0{1ub0}a2{12}}"), false, func(d *hio.Decoder) {
 					d.LongType = hio.LongTypeBigInt
 					d.RealType = hio.RealTypeFloat32
 					d.MapType = hio.MapTypeSIMap
+					d.StructType = hio.StructTypeValue
+					d.ListType = hio.ListTypeSlice
 				})
 			}},
 		{"defaults", func(e *hio.Encoder) string { e.Encode("plain"); return hex.EncodeToString(e.Bytes()) },
 			func(d *hio.Decoder) interface{} {
-				d.ResetBytes([]byte("a3{l5;d1.5;m1{ua1}}"))
+				// every decoder option decides the Go type of one of the elements
+				d.ResetBytes([]byte("a5{l5;d1.5;m1{ua1}c5\"Plain\"3{uaubuc}o0{1ub0}a2{12}}"))
 				var v interface{}
 				d.Decode(&v)
 				e := "none"
 				if d.Error != nil {
 					e = d.Error.Error()
 				}
-				return tr.Rec{"err": e, "v": fmtx.Abs(v), "types": fmt.Sprintf("%T", v)}
+				types := fmt.Sprintf("%T", v)
+				if l, ok := v.([]interface{}); ok {
+					for _, x := range l {
+						types += fmt.Sprintf(" %T", x)
+					}
+				}
+				return tr.Rec{"err": e, "v": fmtx.Abs(v), "types": types}
 			}},
 		{"ref-back-to-earlier-use", func(e *hio.Encoder) string { e.Encode([]interface{}{"hello"}); return hex.EncodeToString(e.Bytes()) },
 			func(d *hio.Decoder) interface{} { return decodeInto(d, []byte("a1{r1;}"), false, nil) }},
@@ -310,7 +319,12 @@ func c14Pool(t *tr.Writer, id int, c c14Case) {
 		for _, u := range c.Seq {
 			if dir == "enc" {
 				e := hio.GetEncoder()
-				got = uses[u].enc(e)
+				stale := e.Error // what the pool handed out must not carry an earlier use's error
+				r := uses[u].enc(e)
+				if stale != nil {
+					r += "|STALE-ERROR:" + stale.Error()
+				}
+				got = r
 				hio.FreeEncoder(e)
 			} else {
 				d := hio.GetDecoder()
